@@ -80,7 +80,7 @@ theorem gen_noexcl (Δ : Decls) (o : Opts) (hc : o.cust = false) : ∀ (f : Nat)
           · have := ihB (ps ++ [stripPtr t]) ps.isEmpty nm (isPtr t && !ps.isEmpty) (stripPtr t) σ
             generalize genBody Δ o f (ps ++ [stripPtr t]) ps.isEmpty nm (isPtr t && !ps.isEmpty) (stripPtr t) σ = q at this ⊢
             obtain ⟨x, σ'⟩ := q
-            cases x <;> simp_all [finish]
+            unfold finishR; split <;> (cases x <;> simp_all [finish])
       · intro ps top nm nl b σ
         cases b with
         | bool | int _ | float _ | string | bytes | time | array _ _ => simp only [genBody]; exact hcu _ _ (by simp)
@@ -152,7 +152,7 @@ theorem gen_nocycle (Δ : Decls) (o : Opts) (ht : o.throwCycle = false) : ∀ (f
             have := ihB (ps ++ [stripPtr t]) ps.isEmpty nm (isPtr t && !ps.isEmpty) (stripPtr t) σ
             generalize genBody Δ o f (ps ++ [stripPtr t]) ps.isEmpty nm (isPtr t && !ps.isEmpty) (stripPtr t) σ = q at this h
             obtain ⟨x, σ'⟩ := q
-            cases x <;> simp_all [finish]
+            unfold finishR at h; split at h <;> (cases x <;> simp_all [finish])
       · intro ps top nm nl b σ
         cases b with
         | bool | int _ | float _ | string | bytes | time | array _ _ => simp only [genBody]; exact hcu _ _ (by simp)
@@ -487,23 +487,24 @@ theorem gen_pend : ∀ (f : Nat),
                 intro he; rw [← he, h1] at hin'; cases hin'
             generalize hq : genBody Δ o f (ps ++ [stripPtr t]) ps.isEmpty nm (isPtr t && !ps.isEmpty) (stripPtr t) σ = q at ha hs ⊢
             have hB := ihB (ps ++ [stripPtr t]) ps.isEmpty nm (isPtr t && !ps.isEmpty) (stripPtr t) (stripPtr t) σ
-              (by rw [hq]; exact (finish_mono t q).2 ha) hch' (by simp) rfl rfl hpb
+              (by rw [hq]; exact (finishR_mono _ t q).2 ha) hch' (by simp) rfl rfl hpb
             rw [hq] at hB
             obtain ⟨r, σ'⟩ := q
             cases r with
             | ok s1 =>
               obtain ⟨h1, h2⟩ := hB s1 rfl
-              simp only [finish]
-              refine ⟨?_, h2⟩
-              intro m hm
-              rcases h1 m hm with ⟨s2, h3, h4⟩ | ⟨h3, h4⟩
-              · exact Or.inl ⟨s2, h3, h4⟩
-              · right
-                simp only [inParents_append, Bool.or_eq_true] at h3
-                rcases h3 with h3 | h3
-                · exact h3
-                · exact absurd (GoType.beq_eq _ _ h3) h4
-            | cycle | nofuel | excluded | err => simp [finish] at hs
+              (by_cases hc : (ps.isEmpty && isPtr t) = true) <;>
+                simp only [finishR, hc, finish, if_true, if_false, Bool.false_eq_true] <;>
+                (refine ⟨?_, h2⟩
+                 intro m hm
+                 rcases h1 m hm with ⟨s2, h3, h4⟩ | ⟨h3, h4⟩
+                 · exact Or.inl ⟨s2, h3, h4⟩
+                 · right
+                   simp only [inParents_append, Bool.or_eq_true] at h3
+                   rcases h3 with h3 | h3
+                   · exact h3
+                   · exact absurd (GoType.beq_eq _ _ h3) h4)
+            | cycle | nofuel | excluded | err => unfold finishR at hs; split at hs <;> simp [finish] at hs
       · -- genBody
         intro ps top nm nl b B0 σ ha hch hl hel hk hp s hs
         cases b with
@@ -695,6 +696,10 @@ theorem childOf_refs (o : Opts) (e : GoType) (p : R × St) : (childOf o e p).2.r
   split
   · rfl
   · split <;> simp [note, addComp]
+theorem finishR_refs (b : Bool) (t : GoType) (p : R × St) : (finishR b t p).2.refs = p.2.refs := by
+  unfold finishR; split
+  · rfl
+  · obtain ⟨r, σ⟩ := p; cases r <;> rfl
 theorem finish_refs (t : GoType) (p : R × St) : (finish t p).2.refs = p.2.refs := by
   obtain ⟨r, σ⟩ := p
   cases r <;> rfl
@@ -732,7 +737,7 @@ theorem gen_shape (Δ : Decls) (o : Opts) (d : Dflt o) : ∀ (f : Nat),
         · split
           · exact h
           · intro x hx
-            rw [finish_refs] at hx
+            rw [finishR_refs] at hx
             exact ihB _ _ _ _ _ σ h x hx
       · intro ps top nm nl b σ h
         cases b with
